@@ -67,6 +67,11 @@ func (v *Vue) evalInclude(ctx VueContext, node *html.Node, vars map[string]any, 
 		return nil, fmt.Errorf("error parsing %s (included from %s): %w", name, ctx.FormatTemplateChain(), err)
 	}
 
+	// Registered shorthand tags work inside a component file as they do in a page
+	if err := v.resolveComponentTags(compDom); err != nil {
+		return nil, err
+	}
+
 	// Assign v-once IDs to the component's elements (per component file, see nextSeenID)
 	onceCtx := ctx.WithTemplate(name)
 	for _, n := range compDom {
